@@ -1,7 +1,21 @@
 # Table behind MANIFEST.json (see gen_manifest.py). One entry per property: claimed xor not applicable.
 NOTE = "Trusted: go/types, go/ssa, VTA call graph (x/tools v0.29.0); frozen RFC 7950 tables in checker/spec.go; reasoned-exception tables inside the rules; the containment/reference field classification. Not executed: goyang itself."
+T = "repository-specific static analysis over go/types + go/ssa + VTA call graph: "
 CLAIMED = {
+ "C01": (T+"REC (guarded recursion along reference edges), NIL/NILMAP/ASSERT (nil-flow must-analysis with derived predicates and nil-tolerance), PANIC, LEX.PROGRESS/LEX.DELIMS (loop progress, delimiter sets), SCHEMA.FLOW",
+         "Decides structural necessary conditions of crash- and hang-freedom on all paths of the analysed functions: no unguarded recursion along typedef/identity/uses/include references, no unguarded dereference of a recognised nil source, no failing single-result assertion, no input-reachable explicit panic, every lexer/parser loop consumes input. It does not decide slice bounds, stack depth or time; the behavioural claim (no crash for every text) needs run-time exploration.",
+         NOTE, "DESIGN.md §4 C01, §3.2"),
+ "C02": (T+"LEX.DELIMS, LEX.ESC (constant rune sets and substitution table extracted from SSA vs RFC 7950 6.1.3), PARSE.PUSH, PARSE.PATMODE (typestate), PARSE.RET, PARSE.DEPTH",
+         "Decides the clauses of RFC 7950 section 6 conformance that are visible in the shape of the lexer and parser (token boundary set, escape table, push-back order, pattern-mode typestate, accept/reject return discipline, brace accounting). The string computation itself (indent stripping, concatenation content, comments) is value-level and not decided.",
+         NOTE, "DESIGN.md §4 C02, §3.8"),
+ "C03": (T+"SCHEMA.META/IFACE/SCOPE/REQ/CARDSPEC (type-level, exhaustive over ~45 node types and ~400 tagged fields, against RFC 7950 cardinality tables), SCHEMA.CARD/FLOW (builder closures and build control flow), NIL on the keyword table",
+         "The AST builder is a function of a finite type-level schema; the schema rules decide it exhaustively (every node type, every tagged field, every accessor) and the flow rules decide that unknown, duplicate and missing substatements and non-module top levels leave through the error return on every path. Trusts package reflect; does not observe a built AST.",
+         NOTE, "DESIGN.md §4 C03, §3.3"),
+ "C16": (T+"POS.STMT (field-for-field provenance of statement and token positions, dominance order of the start-marker capture)",
+         "Thin claim: decides that a statement's file/line/col are those of its keyword token and that token positions are the markers captured after whitespace and before consumption. The line/column bookkeeping (tabs, multi-byte runes, CR LF, comments) is arithmetic over the text and is not decided.",
+         NOTE, "DESIGN.md §4 C16, §3.8"),
 }
 _pending = "check not built yet in this session (static rules under construction; see DESIGN.md Appendix B build order)"
 NOT_APPLICABLE = {("C%02d" % i): _pending for i in range(1, 21)}
+for k in CLAIMED: NOT_APPLICABLE.pop(k, None)
 NOT_APPLICABLE["C20"] = "value-level arithmetic over run-time split points and short-write counts; see DESIGN.md section 6"
